@@ -830,6 +830,10 @@ func (m *Mirror) handleFuturePrevoteProofs(
 		return tmconsensus.HandleVoteProofsFutureVerified
 	case tmi.AddVoteRedundant:
 		return tmconsensus.HandleVoteProofsNoNewSignatures
+	case tmi.AddVoteOutOfDate:
+		// The round stopped being a future round while we were processing the request.
+		// Just give up now, as in the non-future case.
+		return tmconsensus.HandleVoteProofsRoundTooOld
 	case tmi.AddVoteInternalError:
 		return tmconsensus.HandleVoteProofsInternalError
 	default:
@@ -1205,6 +1209,10 @@ func (m *Mirror) handleFuturePrecommitProofs(
 		return tmconsensus.HandleVoteProofsFutureVerified
 	case tmi.AddVoteRedundant:
 		return tmconsensus.HandleVoteProofsNoNewSignatures
+	case tmi.AddVoteOutOfDate:
+		// The round stopped being a future round while we were processing the request.
+		// Just give up now, as in the non-future case.
+		return tmconsensus.HandleVoteProofsRoundTooOld
 	case tmi.AddVoteInternalError:
 		return tmconsensus.HandleVoteProofsInternalError
 	default:
